@@ -459,6 +459,16 @@ func raceCorpus(s *sharedState, yield bool) []raceOp {
 	acc := jsonpath.Config{}
 	acc.SetAccessorMode()
 	ops = append(ops, raceOp{"Retrieve accessor $.l[*].a", func() string { return resString(jsonpath.Retrieve(`$.l[*].a`, s.big, acc)) }})
+	// parsed functions in accessor mode shared by the goroutines, on the shared document: nothing is Set, so
+	// nothing may be written
+	for _, p := range []string{`$.l[?(@.a)]`, `$.l[?(@.a > 1)].a`, `$.l[*]`, `$.l[0:3]`, `$..a`, `$.m.*`, `$.m.r[?(@ > 1)]`, `$.l[0,0]`} {
+		f, err := jsonpath.Parse(p, acc)
+		if err != nil {
+			panic(p + ": " + err.Error())
+		}
+		p := p
+		ops = append(ops, raceOp{"call shared (accessor mode) " + p, func() string { return resString(f(s.big)) }})
+	}
 	return ops
 }
 
